@@ -792,10 +792,17 @@ def toMember : SExp → Rd Member
 
 def toStructDef : SExp → Rd StructDef
   | .list [.atom "struct", .atom name, .list members, .list flags] =>
-    match toList toMember members with
-    | some (some ms) => if flags.isEmpty then some (some ⟨name, ms⟩) else some none
-    | some none => some none
-    | none => none
+    -- flags: nothing, or the single entry `(bases <type> …)`; anything else (template parameters) is outside the model
+    let bases? : Rd (List BaseTy) :=
+      match flags with
+      | [] => some (some [])
+      | [.list (.atom "bases" :: tys)] => toList toTyNoDecl tys
+      | _ => some none
+    match toList toMember members, bases? with
+    | some (some ms), some (some bs) => some (some ⟨name, bs, ms⟩)
+    | none, _ => none
+    | _, none => none
+    | _, _ => some none
   | _ => none
 
 def sexpSem : Option String → SExp
@@ -821,7 +828,9 @@ def sexpMember : Member → SExp
   | .method f => .list [.atom "method", sexpFn f]
 
 def sexpStructDef (s : StructDef) : SExp :=
-  .list [.atom "struct", .atom s.name, .list (s.members.map sexpMember), .list []]
+  .list [.atom "struct", .atom s.name, .list (s.members.map sexpMember),
+    .list (if s.bases.isEmpty then [] else
+      [.list (.atom "bases" :: s.bases.map fun b => sexpTy (.mk b.1 b.2.1 b.2.2 .empty))])]
 
 def typeNamesFn (f : FnDef) : List String :=
   f.rname :: typeNamesTArgs f.rtargs ++ (f.params.map fun p =>
@@ -871,7 +880,8 @@ def handleDef (sx : SExp) : String :=
         let text := render (collapseSp pieces)
         if gluedIntPeriod pieces || ts.any (fun t => match t with | .lit l => litTooLarge l | _ => false)
         then text ++ " ==> ERR:lex" else
-        match parseStruct ((s.members.map typeNamesMember).flatten) (40 * ts.length + 80) (ts ++ [.p .Eof]) with
+        match parseStruct ((s.bases.map fun b => b.2.1 :: typeNamesTArgs b.2.2).flatten ++ (s.members.map typeNamesMember).flatten)
+            (40 * ts.length + 80) (ts ++ [.p .Eof]) with
         | .ok s' [.p .Eof] => text ++ " ==> " ++ (alignS (sexpStructDef s) (sexpStructDef s')).show
         | .ok _ _ => text ++ " ==> ERR:shape"
         | .fail => text ++ " ==> ERR:parse"
